@@ -152,6 +152,18 @@ def gen_year_boundary(rng, st):
     return rows, [cutrow, cutrow + 1]
 
 
+def gen_multi(rng):
+    """2-3 securities, each an accepted-looking history, interleaved by settlement date (stable: the order of a
+    security's rows is kept)"""
+    rows = []
+    for sec in rng.sample(["FOO", "BAR", "AAA", "ZED"], rng.choice([2, 2, 3])):
+        rows += gen.gen_history(rng, sec=sec, n_rows=rng.randint(2, 7), p_invalid=0.0, p_sfl_spec=0.0,
+                                afs=rng.sample(["", "Spouse", "B"], rng.choice([1, 2])),
+                                window_focus=rng.random() < 0.7, terminating_only=True)
+    rows.sort(key=lambda r: r["sd"])
+    return rows
+
+
 def cuts_of(rows):
     days = sorted(set(r["sd"] for r in rows))
     out = []
@@ -331,12 +343,13 @@ def parse_model(ints):
     k4 = bool(rd.z())
     rt_ok = bool(rd.z())
     rt_obs_ok = bool(rd.z())
+    app_obs_ok = bool(rd.z())      # Model/SummaryApp.v app_roundtrip (observational), all securities
     n = rd.z()
     sums = [parse_tx_ints(rd) for _ in range(n)]
     k = rd.z()
     rest = ints[rd.i:]
     return {"status": "ok", "summary": sums, "classes": sorted(c for c, v in flags.items() if v), "roundtrip_ok": rt_ok,
-            "K_idle_split_expansion": k4, "roundtrip_obs_ok": rt_obs_ok, "rerun": core.parse_model([1] + rest[:k]),
+            "K_idle_split_expansion": k4, "roundtrip_obs_ok": rt_obs_ok, "app_roundtrip_obs_ok": app_obs_ok, "rerun": core.parse_model([1] + rest[:k]),
             "full": core.parse_model([1] + rest[k:])}
 
 
@@ -591,7 +604,10 @@ def check_cases(res, ctx, cases, label):
         cls = known_classes(isum, full, rows, cut, annual)
         for c in cls:
             st["in-class-" + c] += 1
-        if m["status"] == "ok" and not d and sorted(cls) != m["classes"]:
+        if len(full["secs"]) > 1:
+            st["cases-with-several-securities"] += 1
+            st["securities-%d" % len(full["secs"])] += 1
+        if m["status"] == "ok" and not d and len(full["secs"]) == 1 and sorted(cls) != m["classes"]:
             # the class predicates of Properties/C10.v (evaluated by the model) and of this check must agree
             ctx["diffs"].append(("class predicates: Rocq %s, check %s" % (m["classes"], sorted(cls)), h))
         # K_idle_split_expansion (Model/SummaryObs.v): a row after the date is the expansion of a split for all
@@ -609,6 +625,15 @@ def check_cases(res, ctx, cases, label):
                 ctx["diffs"].append(("model: strict and observational round trip differ outside K_idle_split_expansion", h))
             if m["roundtrip_obs_ok"] and not m["roundtrip_ok"]:
                 st["model-strict-comparison-fails-only-on-idle-expansion-rows"] += 1
+        if m["status"] == "ok" and not d:
+            # Model/SummaryApp.v app_roundtrip (all securities): with one security it IS roundtrip_obs_ok; when it holds the
+            # oracle finds the re-run accepted and no later row differing in number, kind or figures
+            st["app-roundtrip-flag-%s" % m["app_roundtrip_obs_ok"]] += 1
+            if len(full["secs"]) == 1 and m["app_roundtrip_obs_ok"] != m["roundtrip_obs_ok"]:
+                ctx["diffs"].append(("model: app-level and one-security round trip differ on a one-security history", h))
+            if m["app_roundtrip_obs_ok"] and bad and (bad[0].startswith("the summary followed") or bad[0].startswith("the rows after")
+                                                      or bad[0].startswith("later row")):
+                ctx["diffs"].append(("app-level round trip: holds in the model, oracle on the implementation: %s" % bad[0], h))
         if bad:
             st["roundtrip-differs"] += 1
             if cls:
@@ -725,6 +750,14 @@ def run(res, ctx):
             r["sfl"] = (v, True)
         for c in cuts_of(rows):
             cases.append((rows, c, False))
+    # several securities (app level: Model/SummaryApp.v all_summaries / app_roundtrip; Exec/CodecCsv.v entry 20)
+    multi = []
+    for _ in range(120 if tier == "quick" else 1200):
+        rows = gen_multi(rng)
+        cs = cuts_of(rows)
+        for c in rng.sample(cs, min(len(cs), 4)):
+            multi.append((rows, c, rng.random() < 0.4))
+    check_cases(res, ctx, multi, "several-securities")
     ctx["second_quota"] = 60 if tier == "quick" else 600
     for i in range(0, len(cases), 2000):
         check_cases(res, ctx, cases[i:i + 2000], "random-sweep")
